@@ -87,3 +87,17 @@ PLANS["C04"] = dict(
              "edge iff the pair occurs": "proved (ensures.edges)",
              "single-occurrence entries keep topology and motif id": "proved (ensures.attrs_once)",
              "round trip is the identity up to order and orientation": "proved (RoundTrip.roundtrip:ensures.*) from the two contracts"})
+
+PLANS["C13"] = dict(
+    level="other", bounded="c13",
+    modules=[dict(name="ejk")],
+    technique="deductive verification of the real extractor (count_edge_types, get_ejk, get_ejks, overall-degree get_ejk) against recursive spec functions over the library's edge enumeration, with engine-proved induction lemmas (symmetry, positivity of counts), VCs from the AST in z3/cvc5; exact-Fraction recomputation on small networks as labelled stand-in",
+    level_text="Proved for all annotated networks and all call histories: the per-topology counter is a function of the graph alone (so repeated extraction returns the same matrices), each matrix entry equals the accumulated weight spec wr (h to (a,b) and h to (b,a) per edge of the topology, h = 1/(2 E_t)), matrices are symmetric (lemma by induction), same law for the overall-degree variant. 'Sums to 1' and 'row sums = excess distribution' need finite-map sums (M-SUM) and are decided by the bounded stand-in only, hence `other`.",
+    level_note="Trusted: vf VC generator, z3/cvc5; assumed: G.edges() is a fixed duplicate-free enumeration of an unmodified graph, G.edges[e][k]/G.nodes[n][k] read annotations, G.degree; L-CAT (tuple concatenation of equal-length tuples as a pair); A-REAL; tuples in normal form. Lemmas cnt_nonneg, cnt_positive, wr_symmetric, wr_zero_without_edges, wd_symmetric are proved by the engine by induction.",
+    explanation="PROVED: count_edge_types:ensures.counts_are_a_function_of_the_graph (old(_num_edges) does not occur), get_ejk:ensures.exact / symmetric, get_ejks:each_matrix_exact with fresh counts, no KeyError/ZeroDivisionError (lemma cnt_positive), JointExcessDegree.get_ejk exact/symmetric. BOUNDED (stand-in): exact recomputation with Fractions incl. mass 1 and row sums on small networks, 1-3 extractions per object.",
+    clauses={"entry = fraction of the topology's edge ends with (own excess, partner excess)": "proved (get_ejk:ensures.exact over spec wr) + bounded recomputation",
+             "symmetric": "proved (lemma wr_symmetric by induction; ensures.symmetric)",
+             "sums to 1; row sums equal the excess distribution": "bounded only (needs the finite-map sum theory M-SUM)",
+             "asking again returns the same matrices": "proved (counts are a function of the graph; get_ejks reads only the graph and the fresh counts)",
+             "overall-degree variant": "proved (JointExcessDegree.get_ejk:ensures.exact, symmetric)"},
+    not_decided=["mass-one and row-sum clauses are not proved (bounded only)"])
